@@ -2,16 +2,20 @@
 # runs every stored seeded change against the check of its property and writes seeded/RESULTS.md
 # (each change is applied to a scratch worktree of /repo's HEAD, see try_seed2.sh; /repo itself is never touched)
 cd /verif
+export MATRIX=1 VERIF_STOP_EARLY=1
 OUT=seeded/RESULTS.md
-echo "| seed | demo clean/seeded | pytest | check exit | first report |" > $OUT
-echo "|---|---|---|---|---|" >> $OUT
+echo "Every stored change applied to a scratch worktree of /repo HEAD and checked with the quick tier of its property (stopping at the first failing path, which is replayed before it is reported). Exit 1 = VIOLATION reported." > $OUT
+echo >> $OUT
+echo "| seed | demo on seeded tree | check exit | first report |" >> $OUT
+echo "|---|---|---|---|" >> $OUT
 for d in $(ls -d seeded/C*-* | sort -V); do
   s=$(basename $d)
   tools/try_seed2.sh $s quick > /tmp/wt/seed_matrix.out 2>&1
   dc=$(grep 'demo on clean' /tmp/wt/seed_matrix.out | sed 's/.*exit //'); ds=$(grep 'demo on seeded' /tmp/wt/seed_matrix.out | sed 's/.*exit //')
   py=$(grep -E 'passed' /tmp/wt/seed_matrix.out | head -1 | sed 's/ in .*//')
   rc=$(grep 'check exit' /tmp/wt/seed_matrix.out | sed 's/.*exit //')
-  v=$(grep -E '^(VIOLATION|INCONCLUSIVE|ENGINE-ERROR)' /tmp/wt/seed_matrix.out | head -1 | sed 's/replay=[^ ]* *//' | cut -c1-160)
-  echo "| $s | $dc/$ds | $py | $rc | $v |" >> $OUT
+  v=$(grep -E '^VIOLATION' /tmp/wt/seed_matrix.out | head -1 | sed 's/replay=[^ ]* *//' | cut -c1-160)
+  [ -n "$v" ] || v=$(grep -E '^(INCONCLUSIVE|ENGINE-ERROR)' /tmp/wt/seed_matrix.out | head -1 | cut -c1-160)
+  echo "| $s | $ds | $rc | $v |" >> $OUT
   echo "$s rc=$rc $v"
 done
